@@ -13,6 +13,10 @@ Suites
   sources  (conformance) the same document as str, bytes, StringIO, BytesIO, text file, binary file and path gives the
                          same graph; rdflib's XML and JSON outputs are well-formed.
   xmlout   (conformance) RDF/XML output well-formedness on and around the regions of findings C05j/C05k.
+  join     (proof tie)   coq/Grammar/Resolve.v <-> notation3.join/_uri_split/_remove_dot_segments, directly and through @base;
+                         specification: RFC 3986 section 5.2 in Coq (finding C05q).
+  tstring  (proof tie)   coq/Grammar/TurtleStr.v <-> SinkParser.strconst/uEscape/UEscape, directly and through Graph.parse;
+                         specification: the Turtle string productions [22]-[25].
   relref   (conformance) one relative IRI reference per Turtle/TriG document, every RFC 3986 kind x every kind of base x
                          @base / BASE / publicID, against the harness's own RFC 3986 5.2 resolver (findings C05l-p, repaired by 2947bd7e).
 """
@@ -44,10 +48,14 @@ TRUSTED = [
     "Coq 8.16.1 kernel and vm_compute",
     "the transcription of the W3C RDF 1.1 N-Triples/N-Quads EBNF in coq/Grammar/Model.v Part A (strict reader; reviewed "
     "production by production, and run on all W3C N-Triples/N-Quads positive and negative syntax tests by suite 'ntread')",
+    "the transcription of RFC 3986 sections 5.2.1-5.2.4, 5.3 in coq/Grammar/Resolve.v Part S (checked on all 41 examples of "
+    "RFC 3986 section 5.4 by Example C05_rfc3986_5_4_examples) and of the Turtle 1.1 string productions [22]-[25] in "
+    "coq/Grammar/TurtleStr.v Part S",
     "harness/c05.py: conversion of rdflib terms to code-point lists (str.__str__, ord) and the case generators",
-    "harness/reflect_c05.py: reflection of _invalid_uri_chars, DATASET_DEFAULT_GRAPH_ID, the reader's regular expressions",
-    "for the conformance suites (spell, sources): the independent writers and the brute-force isomorphism oracle in this file, "
-    "Python's xml.sax and json modules",
+    "harness/reflect_c05.py: reflection of _invalid_uri_chars, DATASET_DEFAULT_GRAPH_ID, the regular expressions of the line "
+    "reader, of _uri_parts and of strconst, Python's \\s / str.isspace classes, strconst's escape letters (probed)",
+    "for the conformance suites (spell, sources, xmlout, relref): the independent writers, the RFC 3986 resolver and the brute-force "
+    "isomorphism oracle in this file, Python's xml.sax and json modules",
 ]
 ASSUMPTIONS = [
     "strings are sequences of Unicode code points; lone surrogates are not generated (NTSerializer's .encode() raises on them, "
@@ -56,12 +64,21 @@ ASSUMPTIONS = [
     "a strict reader requires absolute IRIs (scheme ':'), as the W3C negative tests nt-syntax-bad-uri-06..09 do; relative IRIs in a "
     "graph are outside the property's graphs ('as in C03': IRI has a scheme)",
     "the store's iteration order is not modelled: documents are compared up to the order of their lines",
-    "Turtle/TriG statement grammar, RDF/XML and JSON-LD are exercised by conformance testing only (no Coq model)",
+    "each regular expression of the modelled Python is modelled by the deterministic scanner it amounts to (argument next to each "
+    "definition; the pattern sources are reflected and pinned); readline's 2048-character buffering is not modelled",
+    "join: the base has a scheme and at most one '#', and is hierarchical unless the reference is a same-document reference "
+    "(join raises ValueError otherwise, documented behaviour); an absolute reference is returned as it is (RDF resolves relative "
+    "references only)",
+    "strconst: errors are not distinguished (BadSyntax / AssertionError / IndexError = rejected); the Turtle statement grammar, "
+    "IRIREF/prefixed-name/number terminals of Turtle, RDF/XML and JSON-LD are exercised by conformance testing only (no Coq model)",
 ]
 RULE = ("ntout/ntread: 1-4 rows over a small vocabulary of IRIs, labels, lexical forms, language tags and datatypes that contains "
         "every character class the proofs split on (control characters, each IRIREF-forbidden character, quote/backslash/CR/LF, "
         "non-ASCII and non-BMP, dots and dashes in labels); distinct by full case content, non-trivial when at least one row is "
-        "well-formed and was written. spell: graphs of 1-6 triples rendered with random choices for every alternative form.")
+        "well-formed and was written. spell: graphs of 1-6 triples rendered with random choices for every alternative form. "
+        "join: base x reference over ten base shapes, the RFC 3986 5.4 references and random strings over ':/?#.ab'; non-trivial when "
+        "the result differs from the reference. tstring: a value spelled in one of the four quotings with random escapes, 30% with "
+        "one character dropped/inserted/replaced; non-trivial when accepted and containing an escape.")
 
 # ------------------------------------------------------------------ explicit terms <-> JSON
 # term JSON: ["I", s] | ["B", s] | ["L", lex, None | ["lang", l] | ["dt", d]]
@@ -164,7 +181,7 @@ class NtOut(Suite):
     kf = "kf"
     kf_ids = {3: "C05c"}
     corr = "nt._nt_row/_quoteLiteral/_quote_encode, NTSerializer.serialize, nquads._nq_row, NQuadsSerializer.serialize, URIRef.n3, BNode.n3"
-    quick_n = 900
+    quick_n = 700
     thorough_n = 20000
 
     # case = {"nq": bool, "rows": [[s, p, o, g], ...]}   (g ignored for N-Triples)
@@ -1757,7 +1774,7 @@ def expected_of(case):
 class Spell(Conf):
     name = "spell"
     corr = "Graph.parse / Dataset.parse for turtle, trig, xml, json-ld (notation3.SinkParser, trig.TrigSinkParser, rdfxml.RDFXMLHandler, jsonld.Parser)"
-    quick_n = 700
+    quick_n = 550
     thorough_n = 12000
     timeout_s = 20.0
     CHECKS = ["parsed", "same_graph"]
@@ -1983,4 +2000,174 @@ class RelRef(Conf):
         return {"via_" + case["via"]: 1, "pos_" + case["pos"]: 1}
 
 
-SUITES = [NtOut(), LangTag(), NtRead(), Spell(), Sources(), XmlOut(), RelRef()]
+# ====================================================================== join (proof tie)
+RFC_BASE = "http://a/b/c/d;p?q"
+RFC_REFS = ["g:h", "g", "./g", "g/", "/g", "//g", "?y", "g?y", "#s", "g#s", "g?y#s", ";x", "g;x", "g;x?y#s", "", ".", "./", "..", "../",
+            "../g", "../..", "../../", "../../g", "../../../g", "../../../../g", "/./g", "/../g", "g.", ".g", "g..", "..g", "./../g",
+            "./g/.", "g/./h", "g/../h", "g;x=1/./y", "g;x=1/../y", "g?y/./x", "g?y/../x", "g#s/./x", "g#s/../x", "http:g"]
+J_BASES = BASES + [RFC_BASE, "mid:foo@example", "http://e/a#b#c", "file:///x/y", "urn:a:b", "nocolon", "/a:b", "a:", "a:/", "a://", "a:b#",
+                   "http://e/a/../b/./c", "http://e/a?x#y?z", "x:/a//b", "h:?q", "h:#f", ":a", "", "é:/ü/x", "a+b-c.d:/x"]
+
+
+def c_jres(r):
+    return f"(JOk {cstr(r[1])})" if r[0] == "ok" else {"AssertionError": "JAssertionError", "ValueError": "JValueError",
+                                                        "TypeError": "JTypeError"}[r[0]]
+
+
+class Join(Suite):
+    """notation3.join / _uri_split / _remove_dot_segments against the Coq model (coq/Grammar/Resolve.v Part M) and the
+    RFC 3986 section 5.2 specification (Part S), called directly and through @base of a one-triple Turtle document"""
+    name = "join"
+    imports = "From RV Require Import Grammar.Resolve."
+    case_ty = "jcase"
+    obs_ty = "jobs"
+    model = "j_model"
+    oeq = "jobs_eqb"
+    spec = "j_spec_ok"
+    kf = "j_kf"
+    kf_ids = {17: "C05q"}
+    corr = "notation3.join, _uri_split, _remove_dot_segments, splitFragP; SinkParser.uri_ref2 / directive (@base)"
+    quick_n = 400
+    thorough_n = 8000
+
+    def gen(self, rng, i):
+        def rnd(alpha, lens):
+            return "".join(rng.choice(alpha) for _ in range(rng.choice(lens)))
+        r = rng.random()
+        base = rng.choice(J_BASES) if r < 0.75 else "h:" + rnd("ab/?#.:", [0, 1, 2, 3, 5, 8]) if r < 0.9 else rnd("ab:/?#.", [0, 1, 2, 4, 6])
+        r = rng.random()
+        ref = rng.choice(RFC_REFS + RelRef.REFS) if r < 0.55 else rnd("ab/?#.:", [0, 1, 2, 3, 4, 6, 9]) if r < 0.9 else \
+            rnd("/.", [1, 2, 3, 5, 7]) + rng.choice(["", "g", "?q", "#f"])
+        return {"base": base, "ref": ref}
+
+    def sweep(self):
+        for r in RFC_REFS:
+            yield {"base": RFC_BASE, "ref": r}
+        for b in J_BASES:
+            for r in RelRef.REFS + ["g:h", "//g", "/../g", "./../g", "g/../h"]:
+                yield {"base": b, "ref": r}
+
+    def run_impl(self, case):
+        from rdflib.plugins.parsers.notation3 import join as n3join
+        b, r = case["base"], case["ref"]
+        try:
+            direct = ["ok", n3join(b, r)]
+        except (AssertionError, ValueError, TypeError) as e:
+            direct = [type(e).__name__, ""]
+        via = None
+        ok_chars = lambda s: all(ord(c) > 0x20 and c not in '<>"{}|^`\\' for c in s)  # noqa: E731
+        import re as _re2
+        if _re2.match(r"^[^:/?#]+:", b) and ok_chars(b) and ok_chars(r) and not r.endswith("#"):
+            try:
+                g = Graph()
+                g.parse(data=f"@base <{b}> .\n<{r}> <a:p> <a:o> .", format="turtle")
+                subs = [str.__str__(s_) for s_ in g.subjects()]
+                via = ["ok", subs[0]] if len(subs) == 1 else ["err", ""]
+            except Exception:  # noqa: BLE001
+                via = ["err", ""]
+        return {"direct": direct, "via": via}
+
+    def coq_case(self, case):
+        return "{| j_base := " + cstr(case["base"]) + "; j_ref := " + cstr(case["ref"]) + " |}"
+
+    def coq_obs(self, obs):
+        v = obs["via"]
+        return ctuple(c_jres(obs["direct"]), copt(v, lambda x: copt(x[1] if x[0] == "ok" else None, cstr)))
+
+    def nontrivial(self, case, obs):
+        return obs["direct"][0] == "ok" and obs["direct"][1] != case["ref"]
+
+    def features(self, case, obs):
+        return {"direct_" + obs["direct"][0]: 1, "via_parse": int(obs["via"] is not None), "rfc_5_4_base": int(case["base"] == RFC_BASE)}
+
+    def shrink(self, case):
+        for k in ("base", "ref"):
+            v = case[k]
+            for i in range(len(v)):
+                yield dict(case, **{k: v[:i] + v[i + 1:]})
+
+
+# ====================================================================== tstring (proof tie)
+class TString(Suite):
+    """SinkParser.strconst (with uEscape/UEscape) against its Coq model and the strict Turtle string productions
+    (coq/Grammar/TurtleStr.v), called directly and through a one-triple Turtle document"""
+    name = "tstring"
+    imports = "From RV Require Import Grammar.TurtleStr."
+    case_ty = "scase"
+    obs_ty = "sobs"
+    model = "s_model"
+    oeq = "sobs_eqb"
+    spec = "s_spec_ok"
+    corr = "notation3.SinkParser.strconst, uEscape, UEscape, _unicodeEscape, unicodeExpand, nodeOrLiteral (string branch)"
+    quick_n = 400
+    thorough_n = 8000
+    VALUES = T_LEX + ["\\u0041", "aé\U0001F600", DQ3, SQ3, 'x""y' + "''z", "\x07\x0b", "\\", "tab\there", "\r"]
+    TAILS = [" .", " .", " .", "@en .", "^^<a:d> .", " , 'x' .", "", ";", '"', "'"]
+
+    def __init__(self):
+        self._p = None
+
+    def parser(self):
+        if self._p is None:
+            from rdflib.plugins.parsers.notation3 import RDFSink, SinkParser
+            self._p = SinkParser(RDFSink(Graph()), baseURI="http://e/", turtle=True)
+        return self._p
+
+    def gen(self, rng, i):
+        w = TurtleWriter(rng)
+        lit = w.string(rng.choice(self.VALUES))
+        long = len(lit) >= 6 and lit[:3] in (DQ3, SQ3)
+        q = lit[0]
+        text = lit[3:] if long else lit[1:]
+        if rng.random() < 0.3:      # damage the spelling: drop / insert / replace one character
+            k = rng.randrange(len(text) + 1)
+            op = rng.choice(["drop", "ins", "rep"])
+            ch = rng.choice(['"', "'", "\\", "\n", "u", "U", "0", "g", "x", "\r"])
+            text = text[:k] + (ch if op != "drop" else "") + text[k + (0 if op == "ins" else 1):]
+        return {"q": q, "long": long, "text": text + rng.choice(self.TAILS)}
+
+    def sweep(self):
+        alpha = ['"', "'", "\\", "n", "u", "0", "\n", "a"]
+        for q in ('"', "'"):
+            for long in (False, True):
+                for n in range(0, 5):
+                    for t in itertools.product(alpha, repeat=n):
+                        yield {"q": q, "long": long, "text": "".join(t) + (q * 3 if long else q) + " ."}
+
+    def run_impl(self, case):
+        delim = case["q"] * 3 if case["long"] else case["q"]
+        text = case["text"]
+        try:
+            j, v = self.parser().strconst(text, 0, delim)
+            direct = [v, text[j:]]
+        except Exception:  # noqa: BLE001
+            direct = None
+        via = None
+        if text.endswith(" ."):
+            try:
+                g = Graph()
+                g.parse(data="<a:s> <a:p> " + delim + text, format="turtle")
+                objs = list(g.objects())
+                plain = len(objs) == 1 and isinstance(objs[0], Literal) and objs[0].language is None and objs[0].datatype is None
+                via = ["ok", str.__str__(objs[0])] if plain else ["err", ""]
+            except Exception:  # noqa: BLE001
+                via = ["err", ""]
+        return {"direct": direct, "via": via}
+
+    def coq_case(self, case):
+        return "{| s_q := " + cN(ord(case["q"])) + "; s_long := " + cbool(case["long"]) + "; s_text := " + cstr(case["text"]) + " |}"
+
+    def coq_obs(self, obs):
+        d = copt(obs["direct"], lambda x: ctuple(cstr(x[0]), cstr(x[1])))
+        v = obs["via"]
+        return ctuple(d, copt(v, lambda x: copt(x[1] if x[0] == "ok" else None, cstr)))
+
+    def nontrivial(self, case, obs):
+        return obs["direct"] is not None and "\\" in case["text"]
+
+    def features(self, case, obs):
+        return {("long" if case["long"] else "short") + ("_dq" if case["q"] == '"' else "_sq"): 1, "accepted": int(obs["direct"] is not None),
+                "via_parse": int(obs["via"] is not None)}
+
+
+SUITES = [NtOut(), LangTag(), NtRead(), Spell(), Sources(), XmlOut(), RelRef(), Join(), TString()]
